@@ -361,24 +361,21 @@ def run_property(prop_factory, tier, seed, replay=None):
         else:
             violations.append((c, f, o))
 
-    # witnesses of known findings (replayed every run)
+    # witnesses of known findings (replayed every run against the real code)
     for e in known:
-        if e.get("status") != "known":
+        if e.get("status") != "known" or e.get("witness") is None:
             continue
-        w = e.get("witness")
-        if w is None:
-            continue
-        fs = _eval_cases(prop, [dict(w, _witness=True)] if not prop.excluded(w) else [], Stats())
-        if prop.excluded(w):
-            # excluded by construction: evaluate directly, bypassing the exclusion
-            ob = _srv(prop.server_of(w)).run_one(prop.request(w))
-            try:
-                ff = prop.check(w, ob)
-            except Exception as ex:
-                ff = None
-            fs = [(w, ff, ob)] if ff else []
-        if fs:
-            known_hits.setdefault(e["id"], []).append((w, fs[0][1]))
+        wcase = dict(e["witness"], _witness=True)
+        ob = _srv(prop.server_of(wcase)).run_one(prop.request(wcase))
+        try:
+            ff = prop.check(wcase, ob)
+        except Exception as ex:
+            ff = "HARNESS-ERROR oracle exception on witness: %r" % (ex,)
+        if ff and not str(ff).startswith("HARNESS-ERROR") and match_known(e, prop.features(wcase, ff)):
+            known_hits.setdefault(e["id"], []).append((wcase, ff))
+        elif ff:
+            print("HARNESS-ERROR witness of %s fails differently: %s" % (e["id"], ff))
+            harness_errors.append((wcase, "HARNESS-ERROR witness mismatch " + e["id"], {}))
         else:
             info.setdefault("stale_known", []).append(e["id"])
     for e in known:
